@@ -485,7 +485,7 @@ func c18Cases(env *core.Env, rng *rand.Rand) []core.Case {
 		}
 	}
 	// root resolution
-	n := env.N(150, 3000)
+	n := env.N(400, 3000)
 	for i := 0; i < n; i++ {
 		c := &c18Case{Kind: "root", Abs: core.Chance(rng, 1, 2)}
 		outerIsRoot := core.Chance(rng, 4, 5)
